@@ -33,7 +33,7 @@ THEOREMS = [
     'Pyiga.Props.C08.format_layout_index', 'Pyiga.Props.C08.format_layout_perm_bijective', 'Pyiga.Props.C08.format_layout_entry',
     'Pyiga.Props.C08.format_layout_maps', 'Pyiga.Props.C08.format_layout_maps_entrywise', 'Pyiga.Props.C08.format_layout_loop_rotation',
     'Pyiga.Props.C08.subset_restriction', 'Pyiga.Props.C08.subset_bbox', 'Pyiga.Props.C08.subset_bbox_full_sum',
-    'Pyiga.Props.C08.update_equiv', 'Pyiga.Props.C08.update_equiv_repaired', 'Pyiga.Props.C08.precompute_rule_before_after',
+    'Pyiga.Props.C08.update_equiv', 'Pyiga.Props.C08.update_equiv_repaired', 'Pyiga.Props.C08.precompute_rule_before_after', 'Pyiga.Props.C08.precompute_rule_parameters',
     'Pyiga.Props.C08.update_needs_independence', 'Pyiga.Props.C08.update_params_slots',
 ]
 MODULES = ['Pyiga.Model.Index', 'Pyiga.Model.MLMatrix', 'Pyiga.Model.Layout', 'Pyiga.Model.Assembler', 'Pyiga.Proofs.Index',
@@ -49,6 +49,7 @@ UPD2_FORM = 'f*u*v*dx + inner(grad(f),grad(u))*v*dx + c*inner(grad(f),grad(f))*u
 SYM_TOL = 8 * 4.0 * 8200 * 2.0 ** -53     # 8 x the C01 forward-error factor for <= 8000 nodes, relative to max|entry|
 STALE_FORM = 'f*f*f*f*u*v*dx + f*f*f*f*inner(grad(u),grad(v))*dx + f*u*v*dx'
 STALE_FORM2 = 'f*f*f*f*u*v*dx + f*f*f*f*inner(grad(u),grad(v))*dx'     # every use of f goes through the common subexpression
+PRECOMP_PARAM_FORMS = ['c*c*c*c*u*v*dx + c*c*c*c*inner(grad(u),grad(v))*dx', 'exp(c*f+1)*u*v*dx + exp(c*f+1)*inner(grad(u),grad(v))*dx', 'c*f*u*v*dx']
 PRECOMP_FORMS = [UPD_FORM.replace('c*', ''), STALE_FORM, STALE_FORM2, 'exp(f*f+1)*u*v*dx + exp(f*f+1)*f*inner(grad(u),grad(v))*dx',
                  'f*u*v*dx', 'inner(grad(f),grad(f))*u*v*dx + inner(grad(f),grad(f))*inner(grad(u),grad(v))*dx', 'u*v*dx',
                  'f*u*v*dx + inner(grad(f),grad(u))*v*dx', UPD2_FORM.replace('c*', '')]
@@ -115,6 +116,12 @@ def worker_cfg(name, symform, seed, tier):
                     tol = 0.0 if not sym else SYM_TOL * float(np.max(np.abs(dense)))
                     if np.max(np.abs(A - dense)) > tol:
                         out['violations'].append(('cfg-oracle:' + name, 'assemble_entries(symmetric=%s, format=%s) differs from the matrix of asm.entry(i,j) by %g' % (sym, fmt, float(np.max(np.abs(A - dense)))), desc, True))
+        if dim == 1:
+            # symmetric=True in 1-D: MLStructure.nonzero(lower_tri=True) refuses explicitly ('Lower triangular part not
+            # implemented in 1D'); an explicit assertion, recorded as an observation (docs/C08.md), modelled as err-assertion
+            got = guard(lambda: canon(assemble.assemble_entries(asm, symmetric=True, format='csr')))
+            out['reqs'].append(('drv_c08', 'asm 1 1 %s %s' % (nzs, vs), got, 'asm 1-D symmetric=True'))
+            out['counts']['1-D symmetric probes'] = 1
         # symmetric flag on a symmetric form vs entry symmetry itself (hypothesis of sym_equiv)
         if symform and square:
             asym = np.max(np.abs(dense - dense.T)) if dense.size else 0.0
@@ -383,6 +390,56 @@ def worker_update(seed, tier, stale, form2=False, two_orders=False):
     return out
 
 
+UPDPAR_FORMS = ['c*c*c*c*u*v*dx + c*c*c*c*inner(grad(u),grad(v))*dx',           # CSE extracts the constant c^4
+                'exp(c*f+1)*u*v*dx + exp(c*f+1)*inner(grad(u),grad(v))*dx',             # CSE extracts a FIELD-scope expression of the parameter
+                'let']                                                              # vf.let('k', c*c); k*u*v*dx + c*inner(grad u, grad v)*dx
+
+
+def worker_updparams(which, seed, tier):
+    """update_params() vs constructing afresh for constants / precomputed fields DERIVED from a parameter"""
+    import pyiga
+    from pyiga import assemble, vform, compile
+    pyiga.set_max_threads(1)
+    out = {'name': 'updparams%d' % which, 'status': 'ok', 'violations': [], 'reqs': [], 'counts': {}}
+    case = c01.make_case('lapl_c', seed, tier)
+    kvs = case['kvs0']; geo = case['geo']; rng = case['rng']
+    form = UPDPAR_FORMS[which]
+    f = _field(kvs, rng)
+    desc = {'form': form if form != 'let' else "vf.let('k', c*c); vf.add(k*u*v*dx + c*inner(grad(u),grad(v))*dx)", 'seed': seed,
+            'kvs0': [(kv.kv.tolist(), kv.p) for kv in kvs], 'geometry': case['gkind']}
+    out['desc'] = desc
+    if form == 'let':
+        def mk():
+            vf = vform.VForm(2)
+            u, v = vf.basisfuns()
+            c = vf.parameter('c')
+            k = vf.let('k', c * c)
+            vf.add(k * u * v * vform.dx + c * vform.inner(vform.grad(u), vform.grad(v)) * vform.dx)
+            return vf
+        cls = c01.quiet_call(lambda: compile.compile_vform(mk()))
+        new = lambda cv: cls(kvs, geo=geo, c=cv)
+    else:
+        args = {'geo': geo, 'c': 1.0, 'f': f}
+        def new(cv):
+            a = dict(args); a['c'] = cv
+            return c01.quiet_call(lambda: assemble.instantiate_assembler(form, kvs, a, None))
+    cvals = [float(x) for x in rng.integers(1, 9, size=4) / 4.0]
+    asm = new(cvals[0])
+    for step, cv in enumerate(cvals[1:] + [cvals[0]]):      # ... and back to the first value
+        asm.update_params(c=cv)
+        A = assemble.assemble_entries(asm)
+        fresh = assemble.assemble_entries(new(cv))
+        out['counts']['update_params (derived) steps'] = out['counts'].get('update_params (derived) steps', 0) + 1
+        d = abs(A - fresh)
+        if d.nnz and d.max() > 0:
+            out['violations'].append(('update-params-derived-constants',
+                                      'update_params(c=%r) then assemble() differs from constructing afresh with c=%r (max rel. difference %.3g at step %d): '
+                                      'a constant / precomputed field derived from the parameter is computed once at construction and not refreshed'
+                                      % (cv, cv, float(d.max() / max(abs(fresh).max(), 1e-300)), step), dict(desc, c_sequence=cvals), True))
+            break
+    return out
+
+
 def worker_threads(nthreads, seed, tier):
     """everything again with a given thread count: returns digests of the raw result arrays"""
     import pyiga
@@ -442,6 +499,8 @@ def worker(name, seed, tier, **kw):
         return worker_update(seed, tier, False)
     if name == 'update-stale':
         return worker_update(seed, tier, True)
+    if name.startswith('updparams'):
+        return worker_updparams(int(name[9:]), seed, tier)
     if name == 'update2':
         return worker_update(seed, tier, False, two_orders=True)
     if name == 'update-stale2':
@@ -510,10 +569,10 @@ def precomp_stream(ctx):
     kvs = (bspline.make_knots(2, 0.0, 1.0, 2), bspline.make_knots(1, 0.0, 1.0, 2))
     geo = geometry.unit_square()
     f = bspline.BSplineFunc(kvs, np.ones((4, 3)))
-    req, exp = [], []
-    for expr in PRECOMP_FORMS:
+    req, exp, alt, stale_par = [], [], [], []
+    for expr in PRECOMP_FORMS + PRECOMP_PARAM_FORMS:
         for upd in ([], ['f'], ['geo'], ['f', 'geo']):
-            args = {'geo': geo, 'f': f}
+            args = {'geo': geo, 'f': f, 'c': 1.5}
             try:
                 vf = vform.parse_vf(expr, kvs, args=args, updatable=upd)
                 vf.finalize()
@@ -527,8 +586,15 @@ def precomp_stream(ctx):
                 e = getattr(v, 'expr', None)
                 deps.append(sorted(num[id(d)] for d in e.depends() if id(d) in num) if e else [])
             isupd = [int(isinstance(v, vform.AsmVar) and isinstance(v.src, vform.InputField) and v.src.updatable) for v in lin]
+            ispar = [int(isinstance(v, vform.AsmVar) and isinstance(v.src, vform.Parameter)) for v in lin]
             basis = [int(v.scope == vform.Scope.BASISFUN) for v in lin]
             got = plist(num[id(v)] for v in vf.precomp)
+            # the rule with "updatable" = updatable input fields AND parameters (what update()/update_params() can change);
+            # the code as it is may still use the narrower reading (fields only): accepted only together with the finding below
+            updp = [int(a or b) for a, b in zip(isupd, ispar)]
+            req.append('precomp 1 %d %s %s %s %s' % (len(lin), plist(range(len(lin))), plist(deps, plist), plist(updp), plist(basis)))
+            exp.append(got)
+            alt.append(len(req))
             req.append('precomp 1 %d %s %s %s %s' % (len(lin), plist(range(len(lin))), plist(deps, plist), plist(isupd), plist(basis)))
             exp.append(got)
             # model-free: no precomputed variable may (transitively) depend on an updatable-sourced variable
@@ -539,6 +605,10 @@ def precomp_stream(ctx):
                 return seen
             for v in vf.precomp:
                 anc = reach(num[id(v)], set())
+                if any(ispar[w] for w in anc) and not stale_par:
+                    stale_par.append(1)
+                    ctx.violation('update-params-derived-constants', 'dependency_analysis precomputes `%s`, which depends on a parameter; update_params() only rewrites the parameter slots (form %s)' % (v.name, expr),
+                                  {'form': expr, 'var': v.name, 'replay': "asm = instantiate_assembler(form, kvs, {'geo': geo, 'c': 2.0}); asm.update_params(c=3.0); assemble_entries(asm) vs fresh with c=3.0"}, True)
                 if any(isupd[w] for w in anc):
                     ctx.violation('update-stale-precomputed', 'dependency_analysis precomputes `%s`, which depends on an updatable input field (form %s, updatable=%s)' % (v.name, expr, upd),
                                   {'form': expr, 'updatable': upd, 'var': v.name}, True)
@@ -596,6 +666,13 @@ def precomp_stream(ctx):
                 exp.append(plist(got_rng))
                 ctx.count('genupdate requests')
     got = ctx.model('drv_c08', req)
+    # pairs (k-1, k) = (rule incl. parameters, rule with updatable fields only): the implementation must equal the first,
+    # or the second if (and only if) the open finding update-params-derived-constants was reported
+    for k in alt:
+        if exp[k - 1] == got[k - 1]:
+            got[k] = exp[k]                      # wide rule holds: the narrow variant is irrelevant
+        elif exp[k] == got[k] and stale_par:
+            got[k - 1] = exp[k - 1]              # narrow rule + finding reported
     nd = sum(1 for e, g in zip(exp, got) if e != g)
     for r, e, g in zip(req, exp, got):
         if e != g and r.startswith('updslots'):
@@ -617,10 +694,13 @@ def make_jobs(ctx):
     jobs += [{'name': 'bbox', 'seed': int(ctx.seed * 1000003 + 31), 'tier': ctx.tier},
              {'name': 'update', 'seed': int(ctx.seed * 1000003 + 32), 'tier': ctx.tier},
              {'name': 'update2', 'seed': int(ctx.seed * 1000003 + 35), 'tier': ctx.tier},
+             {'name': 'updparams0', 'seed': int(ctx.seed * 1000003 + 36), 'tier': ctx.tier},
+             {'name': 'updparams1', 'seed': int(ctx.seed * 1000003 + 37), 'tier': ctx.tier},
+             {'name': 'updparams2', 'seed': int(ctx.seed * 1000003 + 38), 'tier': ctx.tier},
              {'name': 'update-stale', 'seed': int(ctx.seed * 1000003 + 33), 'tier': ctx.tier},
              {'name': 'update-stale2', 'seed': int(ctx.seed * 1000003 + 34), 'tier': ctx.tier}]
     # compiled things first
-    order = {'bbox': 0, 'update': 0, 'update2': 0, 'update-stale': 0, 'update-stale2': 0}
+    order = {'bbox': 0, 'update': 0, 'update2': 0, 'update-stale': 0, 'update-stale2': 0, 'updparams0': 0, 'updparams1': 0, 'updparams2': 0}
     jobs.sort(key=lambda j: order.get(j['name'], 0 if isinstance(c01.FORMS.get(j['name'], (0, 0, ''))[2], str) else 1))
     tjobs = [{'name': 'threads%d' % n, 'seed': int(ctx.seed * 1000003 + 555), 'tier': ctx.tier} for n in THREAD_COUNTS]
     return jobs, tjobs
